@@ -73,7 +73,8 @@ CLAIMED["C14"] = dict(category=_MC,
          "completion; each residual, evaluated by the reference semantics, has the outcome of its original on every completion; the views policies / policy_set / get_policy / "
          "residual_policies present the same residuals; reauthorize equals the reference response. TLC enumerates 178 strictly valid policy sets x 4 base environments x every "
          "erasure of <=2 unknown components with the complete completion sets (26196 cases); the real tpe()/reauthorize are run on each.",
-    note="completions range over the 1920-environment model universe; permission queries (query_resource/principal/action) are not driven yet. A genuine defect found by this check "
+    note="completions range over the 1920-environment model universe; permission queries (query_resource / query_principal = exactly the candidates the reference authorizer allows; query_action never omits an allowed action, never "
+         "labels one it should not) over 178 sets x 192 base environments; random strictly valid policy sets from the type-directed generator go through the same generators each run. A genuine defect found by this check "
          "(policy_set returned originals) was repaired in /repo commit 5ae75d7.")
 ENGINES[0]["serves_properties"].append("C15")
 CLAIMED["C15"] = dict(category=_MC,
@@ -102,7 +103,9 @@ CLAIMED["C19"] = dict(category=_MC,
          "emits all 32000 (state, operation) pairs; each runs as a history with fresh names through preparse_policy_set / preparse_schema / stateful_is_authorized / "
          "is_authorized_json and the Rust API; TLC folds the machine over each recorded history.",
     note="complete for the 2-name cache at the design level; conformance on a seeded sample (quick) or all pairs (thorough) plus random histories over 4 names. "
-         "validate/check-parse/convert/format FFI entry points and the CLI are not driven yet.")
+         "Front.tla states the stateless front ends (FFI validate / check_parse / policy and schema conversions / format, and the cedar CLI's authorize / validate / "
+         "check-parse / format / translate-policy / translate-schema / link: exit status, printed decision, determining and erroring ids) as functions of abstract sources; 7782 "
+         "TLC-enumerated cases run through cedar_policy::ffi, the plain API and the cedar binary built from /repo's tree; every answer is judged against the spec function and the API answer.")
 ENGINES[0]["serves_properties"] += ["C07", "C18"]
 CLAIMED["C07"] = dict(category=_MC,
     text="CedarExt.tla specifies the four extension types: acceptors as explicit grammars over code points (decimal, IPv4/IPv6 with prefixes, datetime with calendar validity and "
